@@ -195,6 +195,9 @@ func splitResp(b []byte) (status tlv, token []byte, err error) {
 }
 
 func buildResp(status int64, token []byte) []byte {
+	if status < 0 { // only -1 is needed: INTEGER 0xFF
+		return wrap(0x30, wrap(0x30, wrap(0x02, []byte{0xff})), token)
+	}
 	st := wrap(0x30, derInt(status))
 	if status >= 2 {
 		st = wrap(0x30, derInt(status), wrap(0x03, []byte{0x06, 0x80})) // failInfo badAlg, arbitrary
